@@ -357,6 +357,11 @@ def widsOfConn (s : Server) (c : Nat) : List Nat :=
     closed/aborted writer was unregistered: aborting such a handle does nothing). -/
 def disconnectOp (s : Server) (c : Nat) : Server := (widsOfConn s c).foldl abortOp s
 
+/-- the server process is killed and a new `StorageServer` is started on the same directory:
+    `_clean_incomplete()` removes everything under incoming/, `_bucket_writers` starts empty, and no
+    BucketWriter handle, canary registration or timer of the old process exists any more -/
+def restartOp (s : Server) : Server := { s with incoming := [], conns := [] }
+
 /-- `clock.advance(dt)`: every timeout with `deadline <= now` fires (abort) -/
 def advanceOp (s : Server) (dt : Nat) : Server :=
   let now := s.now + dt
@@ -409,11 +414,13 @@ inductive FOp where
   | direct (op : Op)
   | allocConn (c : Nat) (si : Nat) (shs : List Nat) (size : Nat) (rec : Bytes) (free : Nat) (order : List Nat)
   | disconnect (c : Nat)
+  | restart
 
 def fstep (s : Server) : FOp → Server
   | .direct op => step s op
   | .allocConn c si shs size rec free order => (allocateConn s c si shs size rec free order).1
   | .disconnect c => disconnectOp s c
+  | .restart => restartOp s
 
 def frun (s : Server) (ops : List FOp) : Server := ops.foldl fstep s
 
